@@ -151,10 +151,10 @@ void sweep_prefixes(const unsigned char *text, size_t n, const unsigned char *re
         {
             size_t pos = ((variant - 1) / nrepl) * stride;
             tmp[pos] = repl[(variant - 1) % nrepl];
-            /* only prefixes that contain the edit are new */
+            /* edited variants: truncated right after the edit, and complete */
             lo = pos + 1;
         }
-        for (len = lo; len <= hi && o->code == 0; len++)
+        for (len = lo; len <= hi && o->code == 0; len = (variant > 0 && len < hi) ? hi : len + 1)
         {
             int entry;
             for (entry = 0; entry < 4 && o->code == 0; entry++)
